@@ -653,7 +653,7 @@ def stmt_libs():
         out.append(("struct member types (%s)" % lang, lang, ry, hname, rhdr))
     # callbacks: the abstract interface of a function-pointer argument describes the pointed-to function type - its own result
     # type (every native kind, none of them the enclosing function's) and its own parameters
-    rtypes = ["void", "int", "long", "double", "float", "bool", "short", "long long", "size_t", "unsigned int"]
+    rtypes = ["void", "int", "long", "double", "float", "bool", "short", "long long", "size_t", "unsigned int", "int *", "void *", "const double *"]
     for lang in ("c", "cxx"):
         hname = "cbk.h" if lang == "c" else "cbk.hpp"
         for i, rt in enumerate(rtypes):
@@ -664,7 +664,8 @@ def stmt_libs():
             d = "%s take%d(%s (*fn)(int k, double x), int n)" % (outer, i, rt)
             decls.append({"decl": d})
             hdr.append(d + ";")
-            d2 = "%s visit%d(%s (*each)(%s *v, long n))" % (rtypes[(i + 5) % len(rtypes)] if rtypes[(i + 5) % len(rtypes)] != "void" else "int", i, rt, "double" if rt == "void" else rt)
+            vouter = rtypes[(i + 5) % len(rtypes)]
+            d2 = "%s visit%d(%s (*each)(%s *v, long n))" % ("int" if vouter == "void" or "*" in vouter else vouter, i, rt, "double" if rt == "void" or "*" in rt else rt)
             decls.append({"decl": d2.replace("*v,", "*v +rank(1),")})
             hdr.append(d2 + ";")
             cy = {"library": "cbk", "cxx_header": hname, "options": {"wrap_python": False, "wrap_lua": False}, "declarations": decls}
